@@ -71,6 +71,7 @@ def tolist(x):
 def evaluate(case):
     """-> dict(alternatives, values, extra{...}) or {'error': Err}."""
     method = case["method"]
+    I.set_salt(case.get("matrix"))
     try:
         dm = I.mk(case)
         dmaker = make(method)
